@@ -46,14 +46,14 @@ def generate(rng, n, tier="quick"):
         i += 1
         data = special_doc(r)
         esc = r.pick(["html", "mark", "mark", "none"])
-        cfg = {"escape": esc}
+        cfg = {"escape": esc, "helpers": [{"name": "wr", "kind": "wr"}]}
         partials = {}
         pnames = []
         if r.chance(0.4):
             pnames = ["pa"]
-            pg = AG(r.fork("pa"), data, [], opt={"partials": False, "sub": True, "html": 0.4, "missing": 0.05})
+            pg = AG(r.fork("pa"), data, [], opt={"partials": False, "sub": True, "wr": True, "html": 0.4, "missing": 0.05})
             partials["pa"] = pg.nodes([ref.Scope(data, "partial")], 2)
-        ag = AG(r.fork("m"), data, pnames, opt={"sub": True, "html": 0.4, "missing": 0.05, "text": True})
+        ag = AG(r.fork("m"), data, pnames, opt={"sub": True, "wr": True, "html": 0.4, "missing": 0.05, "text": True})
         ast = ag.nodes([ref.Scope(data, "root")], r.range(1, 4))
         asts = dict(partials, main=ast)
         srcs = {}
